@@ -21,6 +21,17 @@ def has_avx512():
         return False
 
 
+def harness_env():
+    """environment for every harness process: library OpenMP teams must not spin (many processes run
+    side by side) and the default team size (nThreads = 0 paths) is fixed so runs are reproducible"""
+    e = dict(os.environ)
+    e['OMP_WAIT_POLICY'] = 'passive'
+    e['GOMP_SPINCOUNT'] = '0'
+    e.setdefault('OMP_NUM_THREADS', '4')
+    e['OMP_DYNAMIC'] = 'false'
+    return e
+
+
 class FrameworkError(Exception):
     pass
 
@@ -136,7 +147,7 @@ class Ctx:
             self.incomplete.append('%s: skipped (global deadline)' % step)
             return None
         cmd = [exe, '--tier', self.tier, '--seed', str(self.seed), '--jobs', str(NCPU)] + list(args)
-        e = dict(os.environ)
+        e = harness_env()
         if env:
             e.update(env)
         t0 = time.time()
@@ -182,7 +193,7 @@ class Ctx:
         exe = self.steps[step]['binary']
         cmd = [exe, '--one', case] + list(extra_args)
         try:
-            r = subprocess.run(cmd, capture_output=True, text=True, timeout=300, errors='replace')
+            r = subprocess.run(cmd, capture_output=True, text=True, timeout=300, errors='replace', env=harness_env())
         except subprocess.TimeoutExpired:
             return ['TIMEOUT']
         sigs = []
